@@ -52,6 +52,13 @@ def reference(cfg, shape, grads, theta, steps):
   w2 = 1.0 if beta2 == 1.0 else 1 - beta2
   bl = blocks(shape, bs)
   rank = len(shape)
+  pt = cfg.get("precondtioner_type", ds.PreconditionerType.ALL)
+  if pt == ds.PreconditionerType.ALL or rank <= 1:
+    axes = list(range(rank))
+  elif pt == ds.PreconditionerType.INPUT:
+    axes = list(range(rank - 1))
+  else:
+    axes = [rank - 1]
   stats = {(b, a): eps * np.eye(b[a][1] - b[a][0]) for b in bl for a in range(rank)}
   roots = {k: np.eye(v.shape[0]) for k, v in stats.items()}
   v = np.zeros(shape)
@@ -68,7 +75,7 @@ def reference(cfg, shape, grads, theta, steps):
         others = [i for i in range(rank) if i != a]
         stats[(b, a)] = beta2 * stats[(b, a)] + w2 * np.tensordot(gb, gb, axes=(others, others))
     for k in stats:
-      roots[k] = inv_root(stats[k], 2 * rank, eps)
+      roots[k] = inv_root(stats[k], 2 * len(axes), eps)
     gt = g
     if graft in (G.ADAGRAD_NORMALIZED, G.RMSPROP_NORMALIZED):
       gt = g / (np.linalg.norm(g) + 1e-25)
@@ -88,7 +95,7 @@ def reference(cfg, shape, grads, theta, steps):
     for b in bl:
       sl = tuple(slice(lo, hi) for lo, hi in b)
       x = g[sl]
-      for ax in range(rank):
+      for ax in axes:
         x = np.moveaxis(np.tensordot(roots[(b, ax)], x, axes=([0], [ax])), 0, ax)
       d[sl] = x
     u = d if graft == G.NONE else d * np.linalg.norm(a_) / (np.linalg.norm(d) + 1e-25)
@@ -119,6 +126,8 @@ for ci in range(n_cfg):
       start_preconditioning_step=int(rng.choice([0, 1, 2])), graft_type=grafts[rng.randint(len(grafts))],
       nesterov=bool(rng.randint(2)), moving_average_for_momentum=bool(rng.randint(2)),
       decoupled_learning_rate=bool(rng.randint(2)), decoupled_weight_decay=bool(rng.randint(2)))
+  if ci % 2 == 1:
+    cfg["precondtioner_type"] = [ds.PreconditionerType.INPUT, ds.PreconditionerType.OUTPUT][(ci // 2) % 2]
   steps = 4
   grads = [(rng.randn(*shape) * 10.0 ** rng.randint(-2, 2)).astype(np.float32).astype(np.float64) for _ in range(steps)]
   theta = rng.randn(*shape).astype(np.float32).astype(np.float64)
